@@ -1655,6 +1655,9 @@ class PseudoNetCDFFile(PseudoNetCDFSelfReg, object):
                     dvar = np.arange(len(dv))
                 if isinstance(df, str):
                     newdl = getattr(dvar[...], df)(keepdims=True).size
+                elif isinstance(df, dict):
+                    dfkw = {k: v for k, v in df.items() if k != 'func1d'}
+                    newdl = df['func1d'](dvar[:], **dfkw).size
                 else:
                     newdl = df(dvar[:]).size
             else:
@@ -1691,7 +1694,7 @@ class PseudoNetCDFFile(PseudoNetCDFSelfReg, object):
                         newvals = getattr(newvals, dfunc)(
                             axis=di, keepdims=True)
                     else:
-                        newvals = np.apply_along_axis(dfunc, di, newvals)
+                        newvals = np.apply_along_axis(**opts)
             # the output takes the data type the functions returned (e.g.,
             # the mean of an integer variable is not truncated)
             newvaro = outf.copyVariable(
